@@ -177,7 +177,7 @@ class C15(Engine):
             o = ex.call(build_request(MODE_C15, [], {}, env={"event_ceiling": 20000000}, extra=self.encode([cases[i] for i in todo], todo),
                                       cpu_ms=15000, wall_ms=120000))
             res.absorb(o)
-            res.ops += len(todo) - 1
+            res.ops -= 1          # evaluations are counted per executed variant (one step from one starting state), below
             text = o.text()
             blocks = re.split(r"^@@CASE (\d+) cpu=(\S+)\n", text, flags=re.M)
             done = set()
@@ -187,6 +187,7 @@ class C15(Engine):
                 last_started = cid
                 if "@@ENDCASE %d" % cid in body:
                     done.add(cid)
+                    res.ops += len(cases[cid]["variants"])
                     self.judge(res, cases[cid], body)
                     digests.append(plan_hash(body))
                     res.hashes.append(stable_hash(body))
